@@ -512,10 +512,20 @@ class TorControlProtocol(LineOnlyReceiver):
         keys = [strargs[i] for i in range(0, len(strargs), 2)]
         values = [strargs[i] for i in range(1, len(strargs), 2)]
 
+        for k in keys:
+            if any(c in k for c in ' \t\r\n\x0b\x0c'):
+                d = defer.Deferred()
+                d.errback(ValueError("Whitespace in configuration key %r" % (k,)))
+                return d
+
         def maybe_quote(s):
-            if ' ' in s:
-                return '"%s"' % s
-            return s
+            # Tor splits the items on whitespace, so a value containing
+            # any (or starting with a quote) has to be a QuotedString,
+            # which uses C-style escapes
+            if not s.startswith('"') and not any(c in s for c in ' \t\r\n\x0b\x0c'):
+                return s
+            escapes = {'\\': '\\\\', '"': '\\"', '\n': '\\n', '\r': '\\r', '\t': '\\t'}
+            return '"%s"' % ''.join(escapes.get(c, c) for c in s)
         values = [maybe_quote(v) for v in values]
         args = ' '.join(map(lambda x, y: '%s=%s' % (x, y), keys, values))
         return self.queue_command('SETCONF ' + args)
